@@ -4,7 +4,7 @@ import ast
 
 from .. import AnalysisError
 from ..cfg import ALL_KINDS, NORMAL_KINDS, iter_own
-from ..lib import comp_norm, _single_return, always_followed_by, attr_stores, dominated_by, guard_forms, key_of, norm, render, return_conditions, type_is
+from ..lib import comp_norm, inlined_expr, _single_return, always_followed_by, attr_stores, dominated_by, guard_forms, key_of, norm, render, return_conditions, type_is
 from ..report import describe, rule
 from .c01 import _must_pass, _try_append_test
 
@@ -371,3 +371,29 @@ def c02_13(ctx, r):
     if n < 1:
         raise AnalysisError("C02.13", "no store of _is_complete = True found in AsyncCliCommand")
     r.ok("writers of AsyncCliCommand._is_complete enumerated")
+
+
+@rule(P, "C02.14", "T8", "the status update persists each blocked job's remaining blockers as the round computed them - nothing is subtracted on the way to disk", min_obligations=1)
+def c02_14(ctx, r):
+    """Blockers leave a job's persisted `blocked_by` only because the round collected their results (_update_completed_jobs, C02.5).  The write
+    to disk in Cluster._update_job_status must store exactly `<blocked job>.blocked_by` of the record it was handed; an expression that drops
+    names there (minus the jobs submitted in this round, say - they are running, not finished) releases the dependent in the next round
+    while its blocker is still on a node."""
+    fn = ctx.fn("Cluster._update_job_status", "C02.14")
+    n = 0
+    for f2, node, attr, t, kind in attr_stores(ctx, {"blocked_by"}):
+        if f2 is not fn or kind != "store":
+            continue
+        st = ctx.stmt_of(fn, node)
+        if not isinstance(st, ast.Assign):
+            continue
+        n += 1
+        loops = ctx.enclosing(fn, st, (ast.For,))
+        lv = loops[0].target.id if loops and isinstance(loops[0].target, ast.Name) else None
+        val = inlined_expr(ctx, fn, st.value)
+        ok = lv is not None and isinstance(val, ast.Attribute) and val.attr == "blocked_by" and isinstance(val.value, ast.Name) and val.value.id == lv
+        r.check(ok, "blocked_by on disk = blocked_by of the record handed in", key_of(fn, "persisted blockers are a computed value"), fn.loc(st),
+                f"`{ctx.src(st)}`: the persisted blocker set is not `{lv}.blocked_by` itself - names can leave it although no result was collected for them, and the next round hands the job to a node while that "
+                "blocker is still running", "no job starts before each of its blockers has a recorded result")
+    if n < 1:
+        raise AnalysisError("C02.14", "no store to blocked_by in Cluster._update_job_status")
